@@ -4,7 +4,7 @@ From Coq Require Import List NArith Bool Arith Lia.
 From Verif Require Import lib.Quote model.ExSyntax model.ExLexer model.ExParser model.ExPrinter gen.GrammarE3
   model.ExScanner model.ExRefactor model.ExTemplate
   proofs.QuoteProofs proofs.ExPrintProofs proofs.ExLexerProofs proofs.ExRoundtrip proofs.ExTokok
-  proofs.ExScannerProofs proofs.ExRefactorProofs proofs.ExRender.
+  proofs.ExScannerProofs proofs.ExRefactorProofs proofs.ExRender proofs.ExParserTotal.
 Import ListNotations.
 Open Scope N_scope.
 
@@ -142,3 +142,11 @@ Example glue_free_witness :
   /\ lex g_inp2 = LOk g_ts2 /\ parse_tokens g_ts2 = POk g_t2 /\ glue_free w_lower w_printable g_t2 = true
   /\ g_t2 = EDot (EDot (ECtxRef [102; 111; 111]) [49]) [50].
 Proof. repeat split; vm_compute; reflexivity. Qed.
+
+(* the parser model is total: its fuel never runs out; a token list is accepted (POk), rejected (PSyntax = Parse
+   returns an error) or contains a text literal outside the code-point model (POutside) *)
+Theorem parse_total_stmt : forall ts,
+  (exists t, parse_tokens ts = POk t) \/ parse_tokens ts = PSyntax \/ parse_tokens ts = POutside.
+Proof.
+  intros ts. pose proof (parse_tokens_no_fuel ts) as H. destruct (parse_tokens ts) as [t| | |]; eauto. congruence.
+Qed.
